@@ -326,7 +326,7 @@ def run(tier, seed):
              'x all labels, unknown labels, every byte; FlagsEnum incl. multi-bit and overlapping masks x all 256 values, every label spelling; '
              'Mapping; Error nested in Select/Optional/GreedyRange/Peek for parse and build. distinct = (shape, outcome)',
         fragment='theorems hold for every sub-construct; explicit_escapes_any_nest for any nesting depth (parse side)',
-        partial=['FlagsEnum: the dict spelling on build (union of the masks of the truthy, non-private labels) is decided by oracle + correspondence; parse and the string spelling have theorems', 'Error escaping through Select on the build side has a theorem (select_build_explicit_escapes); through GreedyRange / Peek on build: oracle only'],
+        partial=['Error escaping through Select on the build side has a theorem (select_build_explicit_escapes); through GreedyRange / Peek on build: oracle only'],
         exhaustive=False)
 
 
